@@ -224,7 +224,7 @@ def emit(I, out, alias, unit, qc, cap, T, S, q, qbase, mS, volS, volT, finite=No
 
 class TransferOp(clib.Op):
     FN = FN
-    PROPS_OF = {'conserve': ['C01'], 'uniform': ['C02'], 'size': ['C02'], 'nothing-moved': ['C02'],
+    PROPS_OF = {'observers': ['C10'], 'conserve': ['C01'], 'uniform': ['C02'], 'size': ['C02'], 'nothing-moved': ['C02'],
                 'nonneg': ['C03'], 'cap': ['C03'], 'refuse': ['C03'], 'accept': ['C03'], 'safe': ['C03'],
                 'vol': ['C10'], 'frame': ['C04'], 'fresh': ['C04'], 'identity': ['C04']}
 
@@ -236,10 +236,17 @@ class TransferOp(clib.Op):
 
     def invoke(self, I, st, case):
         T, S, q = st[0], st[1], st[2]
+        clib.prequery(I, S.obj, T.obj)
+        I.writes.clear()
         return vc.call(I, FN, [T.obj, S.obj, SegStr([NumHole(q), ' ', case[1]])])
 
     def emit(self, I, out, st, case, finite=None):
         emit(I, out, *case, *st, finite=finite)
+        if out.kind == 'return' and isinstance(out.value, tuple) and len(out.value) == 2:
+            nw = len(I.writes)
+            clib.oblige_observers(I, 'source', out.value[0])
+            clib.oblige_observers(I, 'destination', out.value[1])
+            del I.writes[nw:]
 
     def finite_configs(self, case, nmax):
         alias, unit, qc, cap = case
